@@ -164,8 +164,11 @@ def judge_outputs(case):
     as_int = list(values)
     as_str = [refexec.bits(v, n) for v in values]
     mixed = [v if i % 2 else refexec.bits(v, n) for i, v in enumerate(values)]
+    # strings the library accepts although they are not in canonical n-character form
+    # (trailing zeros omitted, trailing newline of a log line): the readout must still be canonical
+    loose = [(refexec.bits(v, n).rstrip("0") or "0") + ("\n" if i % 3 == 0 else "") for i, v in enumerate(values)]
     results = []
-    for tag, outs in (("int", as_int), ("str", as_str), ("mixed", mixed)):
+    for tag, outs in (("int", as_int), ("str", as_str), ("mixed", mixed), ("noncanonical-str", loose)):
         o = lib.budgeted(lib.parse_output, 200000 + 400 * len(values), c, list(outs))
         if o[0] != "ok":
             fails.append(("outputs:%s-rejected:%s" % (tag, o[0]), {"info": str(o[1:3])[:200], "n": n}))
